@@ -255,7 +255,7 @@ def pwl_gen(rng, force=None):
       lens.append([Fraction(v, sum(r)) for v in r])
   miss_kp = None
   if missing and missing_value and not learned and (force == "misskp" or rng.random() < 0.3):
-    miss_kp = rng.randrange(K)        # missing_input_value sits ON a keypoint (F-C12-f)
+    miss_kp = rng.randrange(K)        # missing_input_value sits ON a keypoint (F-C12-f, fixed by 164b31b)
   return dict(K=K, units=units, lo=lo, hi=hi, mono=mono,
               cmin=lo is not None and rng.random() < 0.35, cmax=hi is not None and rng.random() < 0.35,
               missing=missing, missing_value=missing_value, learned=learned, cyclic=cyclic, lens=lens,
@@ -289,23 +289,19 @@ def pwl_build(cfg):
   return layer
 
 
-def pwl_outputs(cfg, w, as_impl=False):
-  """keypoint outputs (K, units): cumulative sums of the kernel columns, closed by the first one when cyclic.
-  as_impl: what the real assert reads when missing_input_value sits on keypoint miss_kp (F-C12-f)."""
+def pwl_outputs(cfg, w):
+  """keypoint outputs (K, units): cumulative sums of the kernel columns, closed by the first one when cyclic"""
   nk = pwl_nk(cfg)
   out = np.cumsum(w[:nk], axis=0)
   if cfg.get("cyclic"):
     out = np.vstack([out, out[:1]])
-  if as_impl and cfg.get("miss_kp") is not None:
-    out = out.copy()
-    out[cfg["miss_kp"]] = w[nk]
   return out
 
 
-def pwl_rows(cfg, w, as_impl=False):
+def pwl_rows(cfg, w):
   rows = []
   K, nk = cfg["K"], pwl_nk(cfg)
-  out = pwl_outputs(cfg, w, as_impl)
+  out = pwl_outputs(cfg, w)
   lo, hi = fopt(cfg["lo"]), fopt(cfg["hi"])
   for u in range(cfg["units"]):
     if lo is not None:
@@ -345,9 +341,8 @@ def pwl_lines(cfg, w, eps):
 
 
 def pwl_lift(cfg):
-  """the per-column model `acceptsPwl` speaks about non-cyclic prefix sums; with missing_input_value on a
-  keypoint the layer-level call differs from it by design (F-C12-f)"""
-  return not cfg.get("cyclic") and cfg.get("miss_kp") is None
+  """the per-column model `acceptsPwl` speaks about non-cyclic prefix sums"""
+  return not cfg.get("cyclic")
 
 
 def pwl_cls(cfg):
@@ -370,7 +365,7 @@ def pwl_check_nodes(ctx, cfg, layer, w, case):
   out = pwl_outputs(cfg, w)
   scale = max(1.0, float(np.max(np.abs(w))))
   bad = [(k, u) for k in range(out.shape[0]) for u in range(units)
-         if k != cfg.get("miss_kp") and not abs(y[k, u] - out[k, u]) <= 1e-9 * scale]
+         if k != cfg.get("miss_kp") and not abs(y[k, u] - out[k, u]) <= 1e-9 * scale]   # call() returns missing_output there
   ctx.count("nodes:%s" % ("ok" if not bad else "off"))
   if bad:
     k, u = bad[0]
@@ -722,14 +717,6 @@ def verdict(ctx, case, real, replies):
   ctx.count("oracle:%s" % expected)
   ctx.count("real:%s" % real)
   key = dict(layer=kind, cls=finding_class(kind, cfg), label=case["label"].split("-")[0])
-  if kind == "pwl" and cfg.get("miss_kp") is not None:
-    # F-C12-f: the assert reads missing_output at the keypoint equal to missing_input_value. The failure is
-    # attributed to it only if the verdict on those as-implemented outputs explains the real outcome.
-    rows_i = pwl_rows(cfg, w, as_impl=True)
-    viol_i = any(r[2] < -2 * eps * (1 + 1e-6) - 1e-12 * scale for r in rows_i)
-    ok_i = all(r[2] > -eps / 2 + 1e-12 * scale for r in rows_i)
-    exp_i = "reject" if viol_i else ("accept" if ok_i else None)
-    key["offender"] = "only-at-missing-keypoint" if exp_i in (None, real) else "other"
   ctx.case(sig=(kind, cls, case["label"], tuple(viol), expected, nviol == 1), nontrivial=expected is not None,
            sample=dict(layer=kind, cfg=cfg, eps=eps, label=case["label"], w=w, real=real))
   # replies[0]: the layer-level model (all unit columns at once); replies[1:]: the per-unit-column models
